@@ -7,7 +7,8 @@
    fragment of the property; exactly_balanced_is_stable). *)
 From LedgerV Require Import Base.Prelude Base.Round Model.Amount Model.Xact Model.Journal
   Proofs.AmountProofs Proofs.XactProofs Proofs.JournalProofs Proofs.CompareProofs Proofs.GainLossProofs
-  Model.AmountText Proofs.AmountTextProofs Model.Subtotal Proofs.SubtotalProofs Model.Glob Proofs.GlobProofs Gen.GlobTable Gen.SourceGuards.
+  Model.AmountText Proofs.AmountTextProofs Model.Subtotal Proofs.SubtotalProofs Model.Glob Proofs.GlobProofs Gen.GlobTable Gen.SourceGuards
+  Model.Aliases Model.Layout Proofs.LayoutProofs Gen.LayoutScope.
 From Coq Require Import Permutation.
 Local Open Scope Q_scope.
 
@@ -195,3 +196,91 @@ Proof. exact glob_examples. Qed.
 Theorem model_transcribes_current_source : forallb (fun b => b) src_guards_C08 = true.
 Proof. vm_compute. reflexivity. Qed.
 Print Assumptions model_transcribes_current_source.
+
+(* ---- file layout in the presence of apply account / apply tag / alias / bucket (Model/Layout.v) ----
+   Which state of the reader belongs to one FILE and which to the JOURNAL.  read_items pt l stk g reads the items l of a
+   file whose apply stack is stk (pt: the tags in force in the files above), g being the journal-wide state (alias
+   table, default account, error count); read_journal reads the files named on the command line.  The model computes
+   with the numbers of Gen/LayoutScope.v (re-read from textual.cc on every run): the proofs below hold for the source
+   as it is now, and stop compiling when `end apply` may remove the bottom entry of a file's stack, or an included
+   file no longer starts from the including file's top account. *)
+
+(* an `apply` left open in an included file ends with that file: the including file's stack is what it was *)
+Theorem include_leaves_the_apply_stack_alone : forall pt items stk g,
+  fst (fst (read_item pt (LInclude items) stk g)) = stk.
+Proof. exact include_keeps_stack. Qed.
+Print Assumptions include_leaves_the_apply_stack_alone.
+
+(* an included file cannot end an `apply` of the file that includes it: its `end apply` is an error, nothing is popped *)
+Theorem included_file_cannot_end_the_includers_apply : forall pt kind stk g,
+  let r := read_item pt (LInclude [LEnd kind]) stk g in
+  fst (fst r) = stk /\ g_errs (snd (fst r)) = S (g_errs g) /\ snd r = [].
+Proof. exact included_end_cannot_reach_the_includer. Qed.
+Print Assumptions included_file_cannot_end_the_includers_apply.
+
+(* an alias and a default account declared in an included file stay in force after it (both are resolved under the
+   account in force where they are declared) *)
+Theorem alias_and_bucket_outlive_the_included_file : forall pt k t n stk g,
+  str_eqb k (include_master stk ++ t) = false ->
+  let r := read_item pt (LInclude [LAlias k t; LBucket n]) stk g in
+  fst (fst r) = stk /\
+  g_alias (snd (fst r)) = (k, top_account stk ++ t) :: g_alias g /\
+  g_bucket (snd (fst r)) = Some (top_account stk ++ n).
+Proof. exact alias_and_bucket_outlive_the_file. Qed.
+Print Assumptions alias_and_bucket_outlive_the_included_file.
+
+(* `apply account p` around an include reaches into the included file; the `apply account q` that file leaves open
+   applies to its own transactions only; after `end apply account` the names are looked up under the master again *)
+Theorem apply_account_reaches_into_an_included_file_and_ends_with_it : forall pt m p q names after bk,
+  let g := mkG [] bk O in
+  snd (read_items pt [LApplyAccount p; LInclude [LApplyAccount q; LXact names]; LXact after; LEnd (Some true); LXact after]
+                  [EAcct m] g) =
+  [mkRx (map (fun n => ((m ++ p) ++ q) ++ n) names) bk pt;
+   mkRx (map (fun n => (m ++ p) ++ n) after) bk pt;
+   mkRx (map (fun n => m ++ n) after) bk pt].
+Proof. exact apply_account_reaches_included_file. Qed.
+Print Assumptions apply_account_reaches_into_an_included_file_and_ends_with_it.
+
+(* FILE LAYOUT: a piece b of a file that ends every `apply` it begins and no other (closed b) can be cut out into a
+   file of its own, included at the place it stood - whatever directives (alias, bucket, apply .., nested includes,
+   transactions) stand before it, in it and after it: every transaction is booked under the same accounts, with the same
+   default account and the same tags, and the same errors are counted *)
+Theorem cutting_a_closed_piece_into_an_included_file_changes_nothing : forall pt a b c stk g,
+  stk <> [] -> closed b = true ->
+  read_items pt (a ++ LInclude b :: c) stk g = read_items pt (a ++ b ++ c) stk g.
+Proof. exact cut_into_include. Qed.
+Print Assumptions cutting_a_closed_piece_into_an_included_file_changes_nothing.
+
+(* ... and NOT a piece that leaves an `apply account` open: what follows the include is no longer under it *)
+Theorem cutting_an_open_piece_refuted :
+  exists b c, closed b = false /\
+    snd (read_items [] (LInclude b :: c) [EAcct []] g0) <> snd (read_items [] (b ++ c) [EAcct []] g0).
+Proof. exists [LApplyAccount [1%Z]], [LXact [[2%Z]]]. exact open_piece_witness. Qed.
+Print Assumptions cutting_an_open_piece_refuted.
+
+(* several files named on the command line (--file given several times) are read as ONE file including them in that
+   order would be: alias table and default account carry over from one to the next, apply stacks do not *)
+Theorem files_on_the_command_line_are_read_as_includes : forall master files g,
+  read_files master files g =
+  (let r := read_items [] (map LInclude files) [EAcct master] g in (snd (fst r), snd r)).
+Proof. exact files_are_includes. Qed.
+Print Assumptions files_on_the_command_line_are_read_as_includes.
+
+(* the static tie: the lines of textual.cc / journal.cc that decide what belongs to a file and what to the journal,
+   as harness/translators/c08_layout_scope.py reads them NOW *)
+Theorem layout_scope_is_the_sources :
+  (src_end_apply_keep = 1 /\ src_eof_keep = 1 /\ src_include_master = 1 /\ src_file_master = 1 /\
+   src_lookup_own_first = 1 /\ src_tags_own_then_parent = 1 /\ src_alias_in_journal = 1 /\
+   src_bucket_in_journal = 1 /\ src_apply_account_nests = 1 /\ src_post_under_top = 1)%Z.
+Proof. vm_compute. repeat split. Qed.
+Print Assumptions layout_scope_is_the_sources.
+
+Example ex_layout :
+  (read_journal [] [[LApplyAccount [7]; LInclude [LApplyAccount [8]; LAlias [5] [6; 4]; LBucket [9]]; LEnd None;
+                    LXact [[5; 3]; [2]]]] =
+  (mkG [([5], [7; 8; 6; 4])] (Some [7; 8; 9]) O, [mkRx [[7; 8; 6; 4; 3]; [2]] (Some [7; 8; 9]) []]) /\
+  snd (read_journal [] [[LApplyAccount [7]]; [LXact [[2]]]]) = [mkRx [[2]] None []] /\
+  snd (read_journal [] [[LApplyAccount [7]; LInclude [LXact [[2]]]]]) = [mkRx [[7; 2]] None []] /\
+  snd (read_journal [1] [[LApplyTag 30; LInclude [LApplyTag 31; LXact [[2]]]; LXact [[2]]]]) =
+    [mkRx [[1; 2]] None [31; 30]; mkRx [[1; 2]] None [30]])%Z.
+Proof. exact layout_examples. Qed.
